@@ -3,6 +3,7 @@ package verifdrv
 import (
 	"encoding/json"
 	"fmt"
+	"math/big"
 	"math/rand"
 	"strconv"
 	"strings"
@@ -67,9 +68,54 @@ type repCase struct {
 // world is one concretisation of the abstract universe: names, units, dates
 type world struct {
 	names  []string // by id
-	uq, ua float64  // unit of quantities / of book amounts (powers of two)
+	uq, ua float64  // unit of quantities / of book amounts
+	uqS    string   // the quantity unit as an exact decimal ("" = uq is dyadic and exact as a float)
 	dates  []string // by abstract date
 	iso    []string
+}
+
+// unit of a figure: 'Q' a logged quantity, 'C' a contribution (quantity x amount), 'A' a book amount
+func (w *world) unitRat(kind byte) *big.Rat {
+	q := new(big.Rat).SetFloat64(w.uq)
+	if w.uqS != "" {
+		q, _ = new(big.Rat).SetString(w.uqS)
+	}
+	a := new(big.Rat).SetFloat64(w.ua)
+	switch kind {
+	case 'Q':
+		return q
+	case 'A':
+		return a
+	}
+	return q.Mul(q, a)
+}
+
+// near: the printed figure (in thousandths) is within half a unit of its last printed digit of the exact
+// value model x unit (plus 1e-6 units for the float64 representation).  For dyadic units with at most
+// `dec` decimals this is plain equality.
+func (w *world) near(printedMilli int64, model int, kind byte, dec int) bool {
+	exact := new(big.Rat).Mul(big.NewRat(int64(model), 1), w.unitRat(kind))
+	return withinHalfUnit(big.NewRat(printedMilli, 1000).FloatString(3), exact, dec)
+}
+
+// lit: the literal written into a file for model x unit (exact: the units have at most 3 decimals)
+func (w *world) lit(model int, kind byte, rng *rand.Rand) string {
+	if w.uqS == "" || kind == 'A' {
+		u := w.uq
+		if kind == 'A' {
+			u = w.ua
+		}
+		return fmtNum(float64(model)*u, rng)
+	}
+	exact := new(big.Rat).Mul(big.NewRat(int64(model), 1), w.unitRat(kind))
+	s := exact.FloatString(3)
+	if rng.Intn(2) == 0 {
+		s = strings.TrimRight(strings.TrimRight(s, "0"), ".")
+		if s == "" || s == "-" {
+			s = "0"
+		}
+	}
+	return s
 }
 
 func fmtNum(v float64, rng *rand.Rand) string {
@@ -111,7 +157,7 @@ func (w *world) logText(days []absDay, cc *concretiser) string {
 	for _, d := range days {
 		sb.WriteString(w.dates[d.Date] + ":\n")
 		for _, e := range d.Es {
-			sb.WriteString(cc.entryLine(w.names[e[0]], fmtNum(float64(e[1])*w.uq, cc.rng)) + "\n")
+			sb.WriteString(cc.entryLine(w.names[e[0]], w.lit(e[1], 'Q', cc.rng)) + "\n")
 		}
 		if cc.rng.Intn(3) == 0 {
 			sb.WriteString("\n")
@@ -177,7 +223,7 @@ func (x *cmpCtx) compareRegister(tag string, got []regDay, want []absRegDay, foo
 			}
 			for j, wf := range wd.Foods {
 				gf := g.Foods[j]
-				if gf.Name != w.names[wf.Name] || gf.Qty != w.milliQ(wf.Qty) {
+				if gf.Name != w.names[wf.Name] || !w.near(gf.Qty, wf.Qty, 'Q', 2) {
 					x.bad("register-foods", site, fmt.Sprintf("%s day %s food %d is (%q, %d/1000), specification predicts (%q, %d/1000)", tag, g.Date, j, gf.Name, gf.Qty, w.names[wf.Name], w.milliQ(wf.Qty)))
 					return
 				}
@@ -188,10 +234,12 @@ func (x *cmpCtx) compareRegister(tag string, got []regDay, want []absRegDay, foo
 				for k, wi := range wf.Ingr {
 					// an undefined food stands for itself with its own quantity; a defined one contributes quantity x amount
 					exp := w.milliC(wi[1])
+					kind := byte('C')
 					if len(wf.Ingr) == 1 && wi[0] == wf.Name && !x.defined(wf.Name) {
 						exp = w.milliQ(wi[1])
+						kind = 'Q'
 					}
-					if gf.Ingr[k].Name != w.names[wi[0]] || gf.Ingr[k].Val != exp {
+					if gf.Ingr[k].Name != w.names[wi[0]] || !w.near(gf.Ingr[k].Val, wi[1], kind, 2) {
 						x.bad("register-ingredients", site, fmt.Sprintf("%s day %s food %q ingredient %d is (%q, %d/1000), specification predicts (%q, %d/1000)", tag, g.Date, gf.Name, k, gf.Ingr[k].Name, gf.Ingr[k].Val, w.names[wi[0]], exp))
 						return
 					}
@@ -206,7 +254,7 @@ func (x *cmpCtx) compareRegister(tag string, got []regDay, want []absRegDay, foo
 			for j, wt := range wd.Totals {
 				gt := g.Totals[j]
 				p, n, s := x.milliTotal(wt)
-				if gt.Name != w.names[wt.Name] || gt.Pos != p || gt.Neg != n || gt.Sum != s {
+				if gt.Name != w.names[wt.Name] || !w.near(gt.Pos, wt.Pos, 'C', 2) || !w.near(gt.Neg, wt.Neg, 'C', 2) || !w.near(gt.Sum, wt.Sum, 'C', 2) {
 					x.bad("register-totals", site, fmt.Sprintf("%s day %s total %d is %+v, specification predicts (%q, %d, %d, %d)/1000", tag, g.Date, j, gt, w.names[wt.Name], p, n, s))
 					return
 				}
@@ -267,6 +315,13 @@ func reportersReplay(e *env) error {
 		w := newWorld(rng, maxID, idx%2 == 0)
 		// totals add amounts that came through the book (uq*ua) to directly logged ones (uq): one scale only
 		w.ua = 1
+		// a third of the cases use a quantity unit with three decimals: figures are then compared within half
+		// a unit of the last printed digit (sub-cent parts must be summed before rounding, not after)
+		if idx%3 == 2 {
+			w.uqS = []string{"1.004", "0.836", "0.125", "2.508", "0.004"}[rng.Intn(5)]
+			f, _ := new(big.Rat).SetString(w.uqS)
+			w.uq, _ = f.Float64()
+		}
 		cc := &concretiser{rng: rng}
 		x := &cmpCtx{e: e, c: c, w: w}
 		x.book = w.bookText(c, cc)
@@ -323,10 +378,10 @@ func reportersReplay(e *env) error {
 				for i, wd := range want {
 					okDay := len(sd[i].Foods) == len(wd.Foods) && len(sd[i].Totals) == len(wd.Totals)
 					for j := 0; okDay && j < len(wd.Foods); j++ {
-						okDay = sd[i].Foods[j].Name == w.names[wd.Foods[j].Name] && sd[i].Foods[j].Val == w.milliQ(wd.Foods[j].Qty)
+						okDay = sd[i].Foods[j].Name == w.names[wd.Foods[j].Name] && w.near(sd[i].Foods[j].Val, wd.Foods[j].Qty, 'Q', 2)
 					}
 					for j := 0; okDay && j < len(wd.Totals); j++ {
-						okDay = sd[i].Totals[j].Name == w.names[wd.Totals[j].Name] && sd[i].Totals[j].Val == w.milliC(wd.Totals[j].Pos)
+						okDay = sd[i].Totals[j].Name == w.names[wd.Totals[j].Name] && w.near(sd[i].Totals[j].Val, wd.Totals[j].Pos, 'C', 2)
 					}
 					if !okDay {
 						x.bad("summary-differs-from-register", "cmd/hranoprovod-cli/internal/summary", fmt.Sprintf("summary %s shows %+v, specification (= register of that day) predicts %+v", w.dates[d.Date], sd[i], wd))
@@ -347,7 +402,7 @@ func reportersReplay(e *env) error {
 					if len(recs[i]) == 3 {
 						v, okv = parseMilli(recs[i][2])
 					}
-					if len(recs[i]) != 3 || recs[i][0] != w.iso[r.Date] || recs[i][1] != w.names[r.Name] || !okv || v != w.milliQ(r.Qty) || !threeDecimals(recs[i][2]) {
+					if len(recs[i]) != 3 || recs[i][0] != w.iso[r.Date] || recs[i][1] != w.names[r.Name] || !okv || !w.near(v, r.Qty, 'Q', 3) || !threeDecimals(recs[i][2]) {
 						x.bad("csv-log-rows", "cmd/hranoprovod-cli/internal/csv", fmt.Sprintf("csv log row %d is %q, specification predicts (%s, %q, %d/1000)", i, recs[i], w.iso[r.Date], w.names[r.Name], w.milliQ(r.Qty)))
 						break
 					}
@@ -369,7 +424,7 @@ func reportersReplay(e *env) error {
 					if len(f) >= 3 {
 						v, okv = parseMilli(f[len(f)-1])
 					}
-					if len(f) < 3 || f[0] != w.dates[r.Date] || strings.Join(f[1:len(f)-1], "\t") != w.names[r.Name] || !okv || v != w.milliQ(r.Qty) {
+					if len(f) < 3 || f[0] != w.dates[r.Date] || strings.Join(f[1:len(f)-1], "\t") != w.names[r.Name] || !okv || !w.near(v, r.Qty, 'Q', 2) {
 						x.bad("single-food-rows", "cmd/hranoprovod-cli/internal/register", fmt.Sprintf("reg -f . row %d is %q, specification predicts (%s, %q, %d/1000)", i, lines[i], w.dates[r.Date], w.names[r.Name], w.milliQ(r.Qty)))
 						break
 					}
@@ -386,7 +441,7 @@ func reportersReplay(e *env) error {
 			} else {
 				for i, r := range c.Single {
 					g := rows[i]
-					if g.Date != w.dates[r.Date] || g.Name != el || g.Pos != w.milliC(r.Pos) || g.Neg != -w.milliC(r.Neg) || g.Sum != w.milliC(r.Sum) {
+					if g.Date != w.dates[r.Date] || g.Name != el || !w.near(g.Pos, r.Pos, 'C', 2) || !w.near(-g.Neg, r.Neg, 'C', 2) || !w.near(g.Sum, r.Sum, 'C', 2) {
 						x.bad("single-element-rows", "cmd/hranoprovod-cli/internal/register", fmt.Sprintf("reg -s %q row %d is %+v, specification predicts (%s, pos %d, neg %d, sum %d)/1000", el, i, g, w.dates[r.Date], w.milliC(r.Pos), -w.milliC(r.Neg), w.milliC(r.Sum)))
 						break
 					}
@@ -403,7 +458,7 @@ func reportersReplay(e *env) error {
 			} else {
 				for i, r := range c.Totals {
 					p, n, s := x.milliTotal(r)
-					if rows[i].Name != w.names[r.Name] || rows[i].Pos != p || rows[i].Neg != n || rows[i].Sum != s {
+					if rows[i].Name != w.names[r.Name] || !w.near(rows[i].Pos, r.Pos, 'C', 2) || !w.near(rows[i].Neg, r.Neg, 'C', 2) || !w.near(rows[i].Sum, r.Sum, 'C', 2) {
 						x.bad("report-totals-rows", "cmd/hranoprovod-cli/internal/report", fmt.Sprintf("report totals row %d is %+v, specification predicts (%q, %d, %d, %d)/1000", i, rows[i], w.names[r.Name], p, n, s))
 						break
 					}
@@ -425,12 +480,14 @@ func reportersReplay(e *env) error {
 				// property (only that it is stable from run to run, C05), so ties are compared as sets
 				okq := len(rows) == len(q.want)
 				wantSet := map[string]int64{}
+				wantModel := map[string]int{}
 				for _, r := range q.want {
 					wantSet[w.names[r.Name]] = w.milliQ(r.Qty)
+					wantModel[w.names[r.Name]] = r.Qty
 				}
 				for i := 0; okq && i < len(rows); i++ {
-					v, known := wantSet[rows[i].Name]
-					okq = known && v == rows[i].Val && rows[i].Val == w.milliQ(q.want[i].Qty)
+					_, known := wantSet[rows[i].Name]
+					okq = known && w.near(rows[i].Val, wantModel[rows[i].Name], 'Q', 2) && w.near(rows[i].Val, q.want[i].Qty, 'Q', 2)
 					delete(wantSet, rows[i].Name)
 				}
 				if !okq {
@@ -451,7 +508,7 @@ func reportersReplay(e *env) error {
 			}
 			okb := err == nil && len(rows) == len(c.ByFood)
 			for i := 0; okb && i < len(rows); i++ {
-				okb = rows[i].Name == w.names[c.ByFood[i].Name] && rows[i].Val == w.milliC(c.ByFood[i].Sum)
+				okb = rows[i].Name == w.names[c.ByFood[i].Name] && w.near(rows[i].Val, c.ByFood[i].Sum, 'C', 2)
 			}
 			if !okb {
 				x.bad("element-by-food-rows", "cmd/hranoprovod-cli/internal/register", fmt.Sprintf("reg -s %q -g prints %q, specification predicts %+v", el, out, c.ByFood))
@@ -476,7 +533,7 @@ func reportersReplay(e *env) error {
 			_, tot, err := parseBalance(out)
 			if err != nil || tot == nil {
 				x.bad("balance-unparsable", "cmd/hranoprovod-cli/internal/balance", fmt.Sprintf("bal -s: %v (output %q)", err, out))
-			} else if tot.Val != w.milliC(c.BalTotal) || tot.Label != el {
+			} else if !w.near(tot.Val, c.BalTotal, 'C', 2) || tot.Label != el {
 				x.bad("balance-single-total", "cmd/hranoprovod-cli/internal/balance", fmt.Sprintf("bal -s %q grand total is %d/1000 (%q), specification predicts %d/1000", el, tot.Val, tot.Label, w.milliC(c.BalTotal)))
 			}
 		}
